@@ -185,17 +185,24 @@ def _ok(ev):
 
 
 def _phase(p):
-    """installer phase of one process, from its own operation history"""
+    """installer phase of one process (of its current session), from its own
+    operation history: between `rename succeeded` and `attached and pinned`,
+    unless it abandoned the installation (error path: it removed the lock
+    directory or its own lock file in it)"""
     decided = attached = pinned = gaveup = False
     for _, name, args, r in p.events:
         good = not (isinstance(r, list) and r[:1] == ["!"])
-        if name == "rename" and args[1] == LOCKDIR and good:
+        if name == "exit":             # restart: a new session begins
+            decided = attached = pinned = gaveup = False
+        elif name == "rename" and args[1] == LOCKDIR and good:
             decided = True
         elif name == "set_xdp" and good and args[1] != -1:
             attached = True
         elif name == "obj_pin" and good:
             pinned = True
-        elif name == "rmtree" and args[0] == LOCKDIR and decided:
+        elif decided and good and (
+                (name == "rmtree" and args[0] == LOCKDIR)
+                or (name == "remove" and args[0].startswith(LOCKDIR + "/"))):
             gaveup = True
     return decided and not (attached and pinned) and not gaveup
 
